@@ -345,6 +345,11 @@ def rule_no_stale_sample(run, prog):
                         continue
                     # sample -> write -> use, without passing through a (re)sample
                     for w in writes:
+                        # a write computed from the sample itself (`col += width - 1` with width the sample) does not make the
+                        # sample stale: it is the update the sample was taken for
+                        w_ast = g.nodes[w].ast
+                        if w_ast is not None and any(isinstance(x, ast.Name) and x.id == name for x in ast.walk(w_ast)):
+                            continue
                         if any(g.can_reach(s_, w, avoid=sid_set, follow_exc=False) or s_ == w for s_ in sid_set) and \
                                 (w == uid and False or g.can_reach(w, uid, avoid=sid_set, follow_exc=False)):
                             bad.append((u, name, g.nodes[w].ast))
